@@ -6,7 +6,7 @@ import c15_impl as I, c15_gen as G
 
 ID = 'C15'
 LEVEL = 'proof'
-PROPS = ['Props/C15.v', 'Findings/C15.v']
+PROPS = ['Props/C15.v']
 TRUSTED = [
     'hand-written model coq/Model/C15Delete.v: objects + links, per-relationship flags derived as Attribute.linked / Attribute.get_columns / '
     'Database.generate_mapping derive them, Entity._delete_ as a recursive procedure (policy mem_policy), SQLite executing the ON DELETE clauses '
